@@ -50,10 +50,20 @@ theorem C23_after_start (c : Chart) (spied : Bool) (before s : St) (k : Nat) (r 
     nameAfterStep spied before r.log r.state (List.replicate k r.state) = r.state :=
   C23_name_is_final spied before r.log r.state k
 
+/-- a chart without reactions whose handlers all end in `else: … SUPER` (only the tree matters) -/
+def bare : Chart where
+  react := fun _ _ => .pass
+  init := fun _ => none
+  exitH := fun _ => true
+  depth := 3
+  fall := fun _ => false
+
 /-- without the processor's explicit write a spied chart would be left named after the last
 handler invoked (here: the probe of an enclosing state) — why the explicit write matters -/
 theorem C23_witness_no_explicit_write :
-    lastOr [3, 2, 1] (nameWrites true (isIn [3, 2, 1] [1]).2.log) ≠ [3, 2, 1] := by decide
+    ∃ b r, isIn bare [3, 2, 1] [1] = .ok (b, r) ∧
+      lastOr [3, 2, 1] (nameWrites true r.log) ≠ [3, 2, 1] :=
+  ⟨true, ⟨[3, 2, 1], [3, 2, 1], [⟨[3, 2, 1], .search⟩, ⟨[2, 1], .search⟩]⟩, by decide, by decide⟩
 
 /-! ### non-vacuity -/
 example : nameAfterStep true [1] [⟨[2, 1], .exit⟩, ⟨[3, 1], .entry⟩] [3, 1] [[3, 1]] = [3, 1] := by decide
